@@ -6,8 +6,10 @@ export CARGO_NET_OFFLINE=true
 [ -f harness/Cargo.lock ] || cp /repo/Cargo.lock harness/Cargo.lock
 (cd harness && cargo build --release --offline)
 mkdir -p evidence work replays
-for m in spec/*.tla; do
-  tla-sany "$m" > work/sany.log 2>&1 || { cat work/sany.log; echo "SANY failed on $m"; exit 1; }
-  if grep -q "Fatal errors\|\*\*\* Errors" work/sany.log; then cat work/sany.log; echo "SANY failed on $m"; exit 1; fi
+cd spec
+for m in *.tla; do
+  tla-sany "$m" > ../work/sany.log 2>&1 || { cat ../work/sany.log; echo "SANY failed on $m"; exit 1; }
+  if grep -q "Fatal errors\|\*\*\* Errors" ../work/sany.log; then cat ../work/sany.log; echo "SANY failed on $m"; exit 1; fi
 done
+cd ..
 echo setup ok
